@@ -276,9 +276,13 @@ def _c20_mutate(rec):
 
 reg(P("C20", "plugins", "c20",
       mc={"quick": [("CircuitBreaker", "CircuitBreaker_mc.cfg", 600), ("CircuitBreakerConc", "CircuitBreakerConc_add.cfg", 300),
-                    ("CircuitBreakerConc", "CircuitBreakerConc_loadstore.cfg", 300, "violation")],
+                    ("CircuitBreakerConc", "CircuitBreakerConc_loadstore.cfg", 300, "violation"), ("CircuitBreakerConcInd", "apalache:CInitAdd:Init:IndInv:0", 600), ("CircuitBreakerConcInd", "apalache:CInitAdd:IndInit:IndInv:1", 600),
+                    ("CircuitBreakerConcInd", "apalache:CInitAdd:IndInit:OpensAfterFailures:0", 600),
+                    ("CircuitBreakerConcInd", "apalache:CInitLoadStore:IndInit:IndInv:1", 600, "violation")],
           "thorough": [("CircuitBreaker", "CircuitBreaker_mc_big.cfg", 1200), ("CircuitBreakerConc", "CircuitBreakerConc_add.cfg", 300),
-                       ("CircuitBreakerConc", "CircuitBreakerConc_loadstore.cfg", 300, "violation")]},
+                       ("CircuitBreakerConc", "CircuitBreakerConc_loadstore.cfg", 300, "violation"), ("CircuitBreakerConcInd", "apalache:CInitAdd:Init:IndInv:0", 600), ("CircuitBreakerConcInd", "apalache:CInitAdd:IndInit:IndInv:1", 600),
+                    ("CircuitBreakerConcInd", "apalache:CInitAdd:IndInit:OpensAfterFailures:0", 600),
+                    ("CircuitBreakerConcInd", "apalache:CInitLoadStore:IndInit:IndInv:1", 600, "violation")]},
       traces=[("", "CircuitBreakerTrace", "CircuitBreakerTrace.cfg")],
       level="model_checking",
       rule="cases = every outcome sequence over {ok,err,panic} up to the tier's length x threshold 0..3 x "
@@ -339,11 +343,13 @@ def _c16_mutate(rec):
 reg(P("C16", "plugins", "c16",
       mc={"quick": [("ClusterImpl", "ClusterImpl_%s_%d.cfg" % (m, n), 300) for m in ("failover", "failtry", "failfast") for n in (1, 2, 3)]
                    + [("ClusterImpl", "ClusterImpl_bug_sharedindex.cfg", 300, "violation"),
-                      ("ClusterIndex", "ClusterIndex_store.cfg", 300), ("ClusterIndex", "ClusterIndex_cas.cfg", 300, "violation")],
+                      ("ClusterIndex", "ClusterIndex_store.cfg", 300), ("ClusterIndex", "ClusterIndex_cas.cfg", 300, "violation"), ("ClusterIndexInd", "apalache:CInitStore:Init:IndInv:0", 600), ("ClusterIndexInd", "apalache:CInitStore:IndInit:IndInv:1", 600),
+                      ("ClusterIndexInd", "apalache:CInitStore:IndInit:Recovers:0", 600), ("ClusterIndexInd", "apalache:CInitCas:IndInit:IndInv:1", 600, "violation")],
           "thorough": [("ClusterImpl", "ClusterImpl_%s_%d.cfg" % (m, n), 300) for m in ("failover", "failtry", "failfast") for n in (1, 2, 3)]
                       + [("ClusterImpl", "ClusterImpl_failover_big.cfg", 900),
                          ("ClusterImpl", "ClusterImpl_bug_sharedindex.cfg", 300, "violation"),
-                         ("ClusterIndex", "ClusterIndex_store.cfg", 300), ("ClusterIndex", "ClusterIndex_cas.cfg", 300, "violation")]},
+                         ("ClusterIndex", "ClusterIndex_store.cfg", 300), ("ClusterIndex", "ClusterIndex_cas.cfg", 300, "violation"), ("ClusterIndexInd", "apalache:CInitStore:Init:IndInv:0", 600), ("ClusterIndexInd", "apalache:CInitStore:IndInit:IndInv:1", 600),
+                      ("ClusterIndexInd", "apalache:CInitStore:IndInit:Recovers:0", 600), ("ClusterIndexInd", "apalache:CInitCas:IndInit:IndInv:1", 600, "violation")]},
       traces=[("", "ClusterTrace", "ClusterTrace.cfg")],
       level="model_checking",
       rule="cases = (failover|failtry|failfast) x 1..3 servers x retry budget 0..max x plugin-default idempotent x per-call "
@@ -533,7 +539,8 @@ def _fmt_sig(reset, event):
     else:
         oracle, detail = "mismatch", ""
     detail = _re.sub(r"0x[0-9a-f]+", "0x..", detail)[:60]
-    return {"leaf": leaf, "ctor": ctor, "oracle": oracle, "detail": detail, "class": r.get("class", ""), "mode": r.get("mode", "")}
+    return {"leaf": leaf, "ctor": ctor, "oracle": oracle, "detail": detail, "class": r.get("class", ""), "mode": r.get("mode", ""),
+            "ptr_iface": "ptr(iface)" in shape}
 
 
 def _fmt_mutate_c01(rec):
